@@ -858,7 +858,6 @@ func init() {
 var bareKeyJustified = map[string]string{
 	"yang.(*Modules).add: m":            "the module table itself (ms.Modules or ms.SubModules): every module is filed under name@revision and the bare name is an alias for the newest revision (REV.ORDER decides the re-pointing)",
 	"yang.FindGrouping: seen":           "visited set of a search over the include graph: a second visit of a same-named submodule would search the same groupings again; skipping it loses nothing",
-	"visited set of the deviation pass": "the module table holds every module under two keys (name and name@revision); the set makes each module's deviations apply once, and the sorted visit makes the bare-name alias — the newest revision — the one that is applied",
 }
 
 func ruleRevBareKey(c *Ctx) []Obligation {
